@@ -421,9 +421,14 @@ struct HistCfg {
     lua: bool,
 }
 
+static TTL_HEAVY: std::sync::atomic::AtomicBool = std::sync::atomic::AtomicBool::new(false);
+
 fn gen_op(rng: &mut Rng, client: usize, ctr: &mut u32, key: usize, lua: bool) -> (OpKind, Via) {
     *ctr += 1;
     let uniq = format!("c{}v{}", client, ctr).into_bytes();
+    if TTL_HEAVY.load(Ordering::Relaxed) && key % 3 != 2 && rng.gen_bool(0.25) {
+        return (if rng.gen_bool(0.7) { OpKind::SetPxLong(uniq) } else { OpKind::SetPxShort(uniq) }, Via::Generic);
+    }
     // key 0..: key index parity decides the family so that types collide only sometimes
     let list_key = key % 3 == 2;
     let via = [Via::Generic, Via::Fast, Via::Pooled, Via::Batch][rng.gen_range(0..4)].clone();
@@ -527,6 +532,23 @@ async fn run_history(cfg: &HistCfg, seed: u64) -> (Vec<Rec>, Vec<Rec>) {
     // in half of the histories the TTL sweep (what the server's TTL manager calls periodically) runs beside the clients,
     // as fast as it can: it may only ever remove keys whose deadline has passed
     let sweep_stop = Arc::new(std::sync::atomic::AtomicBool::new(false));
+    if seed % 2 == 0 {
+        // ... and the history starts with keys whose deadline has already passed but which nobody has looked at yet
+        // (written with PX 1 by a preliminary client, then 1.5 ms of real time): the sweep's first pass finds them
+        // while the clients are already writing the same names again
+        for k in 0..cfg.keys {
+            if k % 3 == 2 {
+                continue;
+            }
+            let v = format!("pre{}", k).into_bytes();
+            let call = stamp();
+            let r = do_op(&st, &key_name(k), &OpKind::SetPxShort(v.clone()), &Via::Generic, None).await;
+            let ret = stamp();
+            log.lock().unwrap().push(Rec { client: 99, key: k, op: OpKind::SetPxShort(v), via: Via::Generic, call, ret: Some((ret, r)) });
+        }
+        std::thread::sleep(std::time::Duration::from_micros(3200));
+    }
+    TTL_HEAVY.store(seed % 2 == 0, Ordering::Relaxed);
     let sweeper = if seed % 2 == 0 {
         let st = st.clone();
         let stop = sweep_stop.clone();
